@@ -1,19 +1,24 @@
 ---------------------------- MODULE ImageVol_mc ----------------------------
 (* Exhaustive exploration of ImageVol: every sequence of at most MaxWrites   *)
-(* writes and at most MaxVersions versions.  The history is part of the      *)
-(* state, so every state is one behaviour; behaviours that end with their    *)
-(* MaxWrites-th write are printed (with the expected projection of the final *)
+(* writes (of them at most MaxLoads file loads), MaxRoiOps changes of a      *)
+(* region of interest, MaxExtOps posted extents and at most MaxVersions      *)
+(* versions.  The history is part of the state, so every state is one        *)
+(* behaviour; behaviours that have used up all their writes, region changes  *)
+(* and extents are printed (with the expected projection of the final        *)
 (* state) for replay on the real code.                                       *)
 EXTENDS ImageVol, ImageVolGen, Json
 
 VARIABLES st, hist
 vars == <<st, hist>>
 
+Exhausted(s) == s.nw = MaxWrites /\ s.nr = MaxRoiOps /\ s.ne = MaxExtOps
+
 Init == st = InitState /\ hist = <<>>
-Next == \E o \in WriteOps(st) \cup VerOps(st) :
+Next == \E o \in WriteOps(st) \cup VerOps(st) \cup (IF MaxLoads > 0 THEN LoadOps(st) ELSE {})
+                 \cup (IF MaxRoiOps > 0 THEN RoiOps(st) ELSE {}) \cup (IF MaxExtOps > 0 THEN ExtOps(st) ELSE {}) :
             /\ Enabled(st, o)
-            \* a version step with nothing left to write adds nothing
-            /\ (o.op = "newver" => st.nw < MaxWrites)
+            \* a version step with nothing left to do adds nothing
+            /\ (o.op = "newver" => ~Exhausted(st))
             /\ st' = Step(st, o)
             /\ hist' = Append(hist, o)
 Spec == Init /\ [][Next]_vars
@@ -25,5 +30,5 @@ Act_C17_Step == [][StepClaims(st, hist'[Len(hist')], st')]_vars
 \* printed once: the read-geometry classes per axis
 ASSUME PrintT(ToJson([classes |-> <<AxisClasses(1), AxisClasses(2), AxisClasses(3)>>]))
 
-Emit == (st.nw = MaxWrites /\ EmitOn) => PrintT(ToJson([hist |-> hist, fin |-> Project(st)]))
+Emit == (Exhausted(st) /\ EmitOn) => PrintT(ToJson([hist |-> hist, fin |-> Project(st)]))
 =============================================================================
